@@ -200,6 +200,40 @@ func (w *c15World) finish(what string) {
 	if a := w.p.c.GetActiveStreamCount(); a != held+w.pooled() {
 		vrt.Failf("known:pool-drops-without-close", "%s: the session counts %d active streams, callers hold %d and the pool keeps %d", what, a, held, w.pooled())
 	}
+	// completion (C09's view of pooled streams): give everything back, empty the pool, close the server ends: no buffer stays allocated
+	t := vrt.GoProc("finish-client", 1, func() {
+		for c, h := range w.held {
+			if h != nil {
+				w.sm.PutBack(h)
+				w.held[c] = nil
+			}
+		}
+		for st := w.pool.pop(); st != nil; st = w.pool.pop() {
+			st.Close()
+		}
+	})
+	vrt.WaitThreads(t)
+	vrt.WaitIdle(vrt.Second)
+	t = vrt.GoProc("finish-server", 2, func() {
+		w.p.s.streamLock.Lock()
+		rest := vrt.SortedKeys(w.p.s.streams)
+		var ss []*Stream
+		for _, id := range rest {
+			ss = append(ss, w.p.s.streams[id])
+		}
+		w.p.s.streamLock.Unlock()
+		for _, st := range ss {
+			st.Close()
+		}
+	})
+	vrt.WaitThreads(t)
+	vrt.WaitIdle(vrt.Second)
+	if w.p.c.IsClosed() || w.p.s.IsClosed() {
+		return
+	}
+	if n := w.p.inUse(); n != 0 {
+		vrt.Failf("leak", "%s: every stream was given back / closed on both ends, %d buffers are still allocated", what, n)
+	}
 }
 
 var c15Alphabet = []string{"Ga", "Gb", "Ua", "Wa", "Ra", "Pa", "Pb", "Xa", "L", "Fa", "K"}
